@@ -68,6 +68,7 @@ func NewHandlerForRead(ctx context.Context, path string, defaultWaitTimeout time
 		return h, closeIsolatedHandler(h, err)
 	}
 
+	VerifPoint("read.open")
 	fp, err := file.OpenToReadContext(tctx, retryDelay, h.path)
 	if err != nil {
 		return h, closeIsolatedHandler(h, err)
@@ -99,6 +100,7 @@ func NewHandlerForCreate(path string) (*Handler, error) {
 	}
 	h.lockFile = lockFile
 
+	VerifPoint("create.open")
 	fp, err := file.Create(h.path)
 	if err != nil {
 		return h, closeIsolatedHandler(h, err)
@@ -124,6 +126,7 @@ func NewHandlerForUpdate(ctx context.Context, path string, defaultWaitTimeout ti
 		return h, closeIsolatedHandler(h, err)
 	}
 
+	VerifPoint("update.open")
 	fp, err := file.OpenToUpdateContext(tctx, retryDelay, path)
 	if err != nil {
 		return h, closeIsolatedHandler(h, err)
@@ -163,6 +166,7 @@ func (h *Handler) close() error {
 		return nil
 	}
 
+	VerifPoint("close.closefp")
 	if h.fp != nil {
 		if err := file.Close(h.fp); err != nil {
 			return err
@@ -200,6 +204,7 @@ func (h *Handler) commit() error {
 		return nil
 	}
 
+	VerifPoint("commit.closefp")
 	if h.fp != nil {
 		if err := file.Close(h.fp); err != nil {
 			return err
@@ -208,6 +213,7 @@ func (h *Handler) commit() error {
 	}
 
 	if h.openType == ForUpdate {
+		VerifPoint("commit.closetemp")
 		if h.tempFile.fp != nil {
 			if err := file.Close(h.tempFile.fp); err != nil {
 				return err
@@ -215,15 +221,18 @@ func (h *Handler) commit() error {
 			h.tempFile.fp = nil
 		}
 
+		VerifPoint("commit.remove")
 		if Exists(h.path) {
 			if err := os.Remove(h.path); err != nil {
 				return err
 			}
 		}
 
+		VerifPoint("commit.rename")
 		if err := os.Rename(h.tempFile.path, h.path); err != nil {
 			return err
 		}
+		VerifPoint("commit.renamed")
 	} else {
 		if err := h.tempFile.Close(); err != nil {
 			return err
@@ -250,6 +259,7 @@ func (h *Handler) closeWithErrors() error {
 		return nil
 	}
 
+	VerifPoint("closewitherrors")
 	var errs []error
 
 	if h.fp != nil {
